@@ -758,16 +758,22 @@ def g_op(S):
                 ks = [rng.choice(cols)]
             else:
                 ks = list(dict.fromkeys([rng.choice(cols + [absent(cols)]) for _ in range(rng.choice([2, 3]))]))
-            if key_name(None) in ks:
-                ks = [absent(cols)]                       # `d - None` subtracts nothing (as_list(None) == []): the key None cannot be named here
+            # (round l1, review w1 finding 2: `d - None` DOES delete the column None - as_list is not on that path, _dictattr.py:76-79 - the earlier exclusion
+            # of the key None rested on a false premise and is gone)
+            if any(tagged(k) for k in ks):
+                S.tags.add('sub-keyed')
             S.emit('(tbl sub h%d h%d %s)', dst, h, enc(ks))
             rest = [c for c in cols if c not in ks]
             S.bind(dst, rest, n if rest else 0)
             S.tags.add('sub')
             return
-        scols = [c for c in cols if not tagged(c)]      # d[[1.5, 'a']] is not a list of names to the code (ValueError): string columns only
-        if scols and rng.random() < 0.85:
-            ks = [rng.choice(scols) for _ in range(rng.choice([1, 2, 2, 3]))]
+        # round l1 (review w1 finding 2, defect C01-P1): a projection names EXISTING column keys, strings or not - d[[1.5]], d[['a', 1.5]], d[[None]] project
+        # like d[['a']] (they raised ValueError 'We dont know how to understand this item': is_strs(item) was the test).  Drawn from ALL columns.
+        scols = [c for c in cols if not tagged(c)]      # (the missing-column form keeps to strings: a list with a non-string that is no column is no name list)
+        if cols and rng.random() < 0.85:
+            ks = [rng.choice(cols) for _ in range(rng.choice([1, 2, 2, 3]))]
+            if any(tagged(k) for k in ks):
+                S.tags.add('proj-keyed')
             S.emit('(tbl proj h%d h%d %s)', dst, h, enc(ks))
             S.bind(dst, [c for i, c in enumerate(ks) if c not in ks[:i]], n)
         else:
@@ -1132,7 +1138,7 @@ def laws(rng, tier, ctx):
                         break
             if op == 'proj' and raised is None:
                 src = before[int(sx[3][1:])]
-                ks = proto.dec(sx[4])
+                ks = deck(sx[4])      # the names may be tagged keys (round l1)
                 if ks:
                     res = _snap(state[int(sx[2][1:])])
                     uniq = [k for i, k in enumerate(ks) if k not in ks[:i]]
